@@ -454,6 +454,20 @@ def run(ctx):
     r10 = ctx.rule("C18.R10", "default credential files: every item has its own default name and its own per-namespace name")
     check_ns_templates(P, r10)
 
+    # ------------------------------------------------------------------ R11
+    # "a failing load affects nobody else": what a failed load (or a failed handshake) leaves on the thread's OpenSSL error
+    # queue would make the next would-block SSL call of an ESTABLISHED connection look like a protocol error
+    from . import C02 as c02
+    from . import C07 as c07
+    r11 = ctx.rule("C18.R11", "a failed credential load or handshake leaves the thread's OpenSSL error queue empty: established connections are not affected")
+    c02.check_store_queue_clean(P, r11)
+    pe = P.fn("process_ssl_event")
+    r11.instance(pe.qname)
+    dr = c07.DrainRule(P, pe, r11)
+    S.run(dr, pe)
+    if dr.nproto < 2:
+        raise Broken("C18.R11: protocol-error exits of process_ssl_event not found (%d)" % dr.nproto)
+
 
 def check_ctx_args(P, rule):
     """every call that obtains an SSL_CTX passes the certificate, key, trust and CRL items of ONE socket record, each in
